@@ -380,13 +380,14 @@ struct C07
     int fileAt = -1; // which of A's pending writes is a file (sendfile) instead of a raw buffer; -1: none
     int stale  = 0;  // a write for a connection that is already gone sits in the write queue ahead of B's response
     int again  = 0;  // after its release A accepts 3 more bytes and would-blocks a second time
+    int reenter = 0; // the completion of A's first write calls back into the transport (flush), as the idle check's 408 does
 };
 static std::vector<C07> gC07;
 
 static void case_c07(uint64_t idx, vr::Ctx& ctx)
 {
     const C07 c = gC07[idx];
-    std::string desc = std::string(c.again ? "[A would-blocks a second time after its release] " : "") + std::string(c.stale ? "[a write for a vanished connection is queued ahead of B's response] " : "") + std::string(c.closer ? "[third connection closes when A is released] " : "") + (c.fileAt >= 0 ? "[A's write " + std::to_string(c.fileAt) + " is a file] " : std::string()) + "A: " + std::to_string(c.pending) + " pending writes, would-block at write call " + std::to_string(c.blockAt) + " released after " + std::to_string(c.releaseAfter) + " steps; B: request at step " + std::to_string(c.arriveAt) + (c.split ? " (in two reads)" : "") + "; event order " + (c.order ? "B first" : "A first");
+    std::string desc = std::string(c.reenter ? "[the completion of A's first write re-enters the transport] " : "") + std::string(c.again ? "[A would-blocks a second time after its release] " : "") + std::string(c.stale ? "[a write for a vanished connection is queued ahead of B's response] " : "") + std::string(c.closer ? "[third connection closes when A is released] " : "") + (c.fileAt >= 0 ? "[A's write " + std::to_string(c.fileAt) + " is a file] " : std::string()) + "A: " + std::to_string(c.pending) + " pending writes, would-block at write call " + std::to_string(c.blockAt) + " released after " + std::to_string(c.releaseAfter) + " steps; B: request at step " + std::to_string(c.arriveAt) + (c.split ? " (in two reads)" : "") + "; event order " + (c.order ? "B first" : "A first");
     ctx.note("c07 " + desc);
     auto handler = std::make_shared<EchoHandler>();
     lp::Loop loop(handler);
@@ -435,6 +436,11 @@ static void case_c07(uint64_t idx, vr::Ctx& ctx)
             fclose(f);
             loop.transport->asyncWrite(fa, FileBuffer(path)).then([sp](ssize_t) { ++*sp; }, [sp](std::exception_ptr) { *sp += 100; });
             unlink(path.c_str()); // (the descriptor stays open inside the FileBuffer)
+        }
+        else if (c.reenter && i == 0)
+        {
+            Tcp::Transport* tr = loop.transport.get();
+            loop.transport->asyncWrite(fa, RawBuffer(dat, dat.size())).then([sp, tr](ssize_t) { ++*sp; tr->flush(); }, [sp](std::exception_ptr) { *sp += 100; });
         }
         else
             loop.transport->asyncWrite(fa, RawBuffer(dat, dat.size())).then([sp](ssize_t) { ++*sp; }, [sp](std::exception_ptr) { *sp += 100; });
@@ -536,11 +542,19 @@ int main(int argc, char** argv)
                                     {
                                         gC07.push_back({ p, i, d, j, o, sp, cl, -1, 1 });
                                         gC07.push_back({ p, i, d, j, o, sp, cl, -1, 0, 1 });
+                                        if (p > 1)
+                                            gC07.push_back({ p, i, d, j, o, sp, cl, -1, 0, 0, 1 });
                                         gC07.push_back({ p, i, d, j, o, sp, cl, 0 });
                                         if (p > 1)
                                             gC07.push_back({ p, i, d, j, o, sp, cl, p - 1 });
                                     }
                                 }
+        // long queues behind the stall: far more pending writes than any per-turn batch
+        for (int p : { 17, 33, 65 })
+            for (int i : { 0, 2 })
+                for (int j : { 0, 3 })
+                    for (int o = 0; o < 2; ++o)
+                        gC07.push_back({ p, i, 1, j, o, 0, 0 });
         return vr::run(opt, gC07.size(), case_c07);
     }
     const int nk = sizeof kKinds / sizeof kKinds[0];
